@@ -49,7 +49,7 @@ class C07(P.Property):
         steps = [{"w": rng.choice(pool)} for _ in range(n)]
         ncon = rng.choice([1, 2, 3, 4])
         cuts = sorted(rng.sample(range(1, n), min(ncon - 1, n - 1))) if ncon > 1 else []
-        knobs = dict(scheme=scheme, cfg_index=ci, db=db, cuts=cuts, gap=rng.choice([0, 0.5, 1.5]),
+        knobs = dict(scheme=scheme, cfg_index=ci, db=db, cuts=cuts, gap=rng.choice([0, 0.5, 1.5]), sse2_spare=rng.choice([0, 3, 10]),
                      net=rng.choice([dict(lo=0.001, hi=0.05), dict(lo=0.001, hi=0.05, seg=3), dict(lo=0.0005, hi=0.004)]),
                      skew=rng.choice([1.0, 1.0, 2.0]), bufsize=8192)
         return {"property": "C07", "seed": seed, "knobs": knobs, "steps": steps}
@@ -102,7 +102,7 @@ class C07(P.Property):
         cfg.update(GRID[scheme][knobs["cfg_index"]])
         db = convert_database_keyword_to_bytes(knobs["db"])
         if scheme == "CGKO06.SSE2":
-            cfg["param_n"] = len({x for v in db.values() for x in v})
+            cfg["param_n"] = len({x for v in db.values() for x in v}) + knobs.get("sse2_spare", 0)  # a capacity, may be an over-estimate
         return L, cfg, db
 
     def _local(self, plan, out, viol):
